@@ -88,6 +88,7 @@ PROPS = {
             dict(name="TestOverlap", quick=400, thorough=20000, shards_thorough=8, race=True, shrinktime="5s"),
             dict(name="TestOrder", quick=3000, thorough=150000, shards_thorough=8, shrinktime="5s"),
             dict(name="TestBurst", quick=120, thorough=6000, shards_thorough=4, shrinktime="5s"),
+            dict(name="TestIndependentLines", quick=1500, thorough=100000, shards_thorough=8, shrinktime="5s"),
         ],
     ),
     "C10": dict(
@@ -238,6 +239,7 @@ PROPS = {
             dict(name="TestKillReopen", quick=150, thorough=3000, shards_thorough=16, shrinktime="30s"),
             dict(name="TestKillConcurrent", quick=80, thorough=2000, shards_thorough=16, shrinktime="20s"),
             dict(name="TestAckedInProcess", quick=400, thorough=8000, shards_thorough=8),
+            dict(name="TestFirstOpenInterrupted", quick=150, thorough=3000, shards_thorough=8),
         ],
     ),
     "C03": dict(
